@@ -58,6 +58,11 @@ def num_map(c, name, fields=('',), gen=None, pgen=None):
                 out[k] = c.ceval(z3.Select(z3.Const(name + '.val', AKR), c.keyterm(k)), gen)
             else:
                 out[k] = {f: c.ceval(z3.Select(z3.Const('%s.%s' % (name, f), AKR), c.keyterm(k)), gen) for f in fields}
+    # a dict's INSERTION order is part of the input (the symbolic map iterates in an arbitrary order): random concrete runs permute it
+    if getattr(c, 'rng', None) is not None and getattr(c, 'model', None) is None and len(out) > 1:
+        items = list(out.items())
+        c.rng.shuffle(items)
+        out = dict(items)
     return out
 
 
@@ -110,7 +115,7 @@ class UniverseStub:
     """Universe contract seen by callers: get_assets(t) is a function of t only (ghost query log kept)."""
 
     def __init__(self, c):
-        self.c, self.queries = c, []
+        self.c, self.queries, self._owned = c, [], {}
 
     def dom_at(self, t):
         return UNIVF(lift(t))
@@ -129,7 +134,9 @@ class UniverseStub:
         self.queries.append(dt)
         if self.c.mode == 'sym':
             return SymIter(self.dom_at(dt), lambda k: SymKey(k), None, 'insertion')
-        return self._conc(dt)
+        # like StaticUniverse, the stub hands out a list it OWNS (the same object on every call): a caller that modifies the
+        # answer in place changes what later callers see, while `member` keeps the true membership
+        return self._owned.setdefault(str(self.c.tterm(dt)), self._conc(dt))
 
 
 def SUMOF(c, m):
